@@ -8,6 +8,24 @@ COMMON_NOTE = ("Trusted: Coq 8.16.1 kernel (full .vo build, Print Assumptions = 
                "extraction with ExtrOcamlBasic only, ocaml/driver.ml, the Rust harness; the hand-written model is tied "
                "to /repo's source by the differential (correspondence) run of every check, the tables by the translator.")
 CLAIMS = {
+ "C01": ("Coq: the <tag><length><data> frame round-trips for every delimiting length style, representable tag and inner codec (general theorem); "
+         "value encodings round-trip over their whole domain (C17 theorems); the lift to every well-formed layout is being completed "
+         "(theorems named *_partial in Properties/C01.v say what is missing). Tie + decision today: canonical values of all 55 regenerated types "
+         "(300 / 5000 per type, APDU bodies at 253..257 bytes) are encoded by an independent reference encoder, decoded by the real codec and by the "
+         "extracted model; oracle: decode(encode v) = (v, no rest) and re-encode = same bytes.", "DESIGN.md section 6, C01"),
+ "C03": ("Coq obligation by computation: all 55 layouts regenerated from /repo equal the hand-written specification layouts (global bitmap table, "
+         "TLV tag table, per-packet numbers and role names, control fields) up to what is visible on the wire. Tie: bytes assembled from the "
+         "SPECIFICATION layout (read back from Coq) by the reference encoder must decode in the real codec into exactly the named fields and "
+         "re-encode identically; model and implementation compared on the same bytes.", "DESIGN.md section 6, C03"),
+ "C14": ("Coq theorems, unbounded: for every layout, every body (canonical or not) and every suffix, decoding header++body++suffix equals decoding "
+         "header++body with the suffix appended to the remainder; for every delimiting length style and every inner decoder a frame never looks "
+         "beyond its length (framed_suffix). Tie: differential run + oracle with all 256 single-byte suffixes, a valid packet, the packet "
+         "itself and random suffixes behind every command type, and foreign bytes behind nested containers.", "DESIGN.md section 6, C14"),
+ "C15": ("Coq theorems: a reply parser returns variant i iff the input's first two bytes are variant i's control field, with exactly that packet "
+         "type's own decode result (sound + complete under NoDup), WrongTag(0) outside the set, IncompleteData below two bytes; obligations by "
+         "computation on the regenerated enums: control fields pairwise distinct, each command's reply enum = the reply set of the specification "
+         "table. Tie: every enum x all 65,536 control fields x bodies (empty, valid for each variant, valid for another packet, random), "
+         "oracle against the specification's reply sets.", "DESIGN.md section 6, C15"),
  "C02": ("Coq theorems for EVERY layout (not only shipped ones), every byte string, every fuel: the generated decoder never returns Panic, "
          "never hands back more than it was given, and fuel = nesting depth suffices (no loop without progress); instantiated by computation on "
          "the regenerated tables for all shipped command decoders, containers and reply parsers; BCD decoder = exact value or error. Tie: "
